@@ -180,10 +180,11 @@ package drpcmanager
 
 // NewWithOptions starts exactly the two goroutines (reader and stream manager) that Close waits for.
 //@ func NewWithOptions
-//@   props C12 C05
+//@   props C12 C05 C01 C02
 //@   requires tr != nil && opts.WriterBufferSize >= 0 && opts.WriterBufferSize <= 1073741824
 //@   modifies *
 //@   ensures [man] result != nil && result.wr != nil && result.wr.w == tr && result.tr == tr
+//@   ensures [C01,C02,C12.channels] chancap(result.pkts) == 0 && chancap(result.streams) == 0 && chancap(result.sfin) == 1
 //@   check [C12.two-goroutines] eventCount("go:") == 2 && eventCount("go:(*Manager).manageReader") == 1 && eventCount("go:(*Manager).manageStreams") == 1
 
 // Set once by NewWithOptions, never assigned again (checked by a scan of every function of the package).
